@@ -292,6 +292,9 @@ def run(rep, tier, only=None):
 
 def replay(case):
     c = case["case"]
+    if c.get("cli_config"):
+        from checks.c07cli import replay_cli
+        return replay_cli(cfg=c["cli_config"])
     if c.get("cli_protocol"):
         from checks.c07cli import replay_cli
         return replay_cli(c['cli_protocol'])
